@@ -248,6 +248,16 @@ func (rs *bodyStream) skipRest() error {
 		}
 
 		strCRLFLen := len(bytestr.StrCRLF)
+		if rs.chunkLeft > 0 {
+			// drop the unread remainder of the current chunk and its CRLF before the next size line
+			if err := rs.reader.Skip(rs.chunkLeft); err != nil {
+				return err
+			}
+			rs.chunkLeft = 0
+			if err := utils.SkipCRLF(rs.reader); err != nil {
+				return err
+			}
+		}
 		for {
 			chunkSize, err := utils.ParseChunkSize(rs.reader)
 			if err != nil {
